@@ -501,7 +501,7 @@ class AbstractJob:                                      # pylint: disable=R0902
                     self.required.remove(requirement)
             elif isinstance(requirement, Sequence):
                 if requirement.jobs:
-                    self._add_one_requirement(requirement.jobs[-1])
+                    self.requires(requirement.jobs[-1], remove=remove)
             elif isinstance(requirement, (tuple, list, set)):
                 for req in requirement:
                     self.requires(req, remove=remove)
